@@ -61,6 +61,11 @@ def build(case):
     return m, env, ext, wrap
 
 
+def _p3(pos):
+    """exactly three coordinates (minimised cases may carry shorter lists)"""
+    return (list(pos) + [0, 0, 0])[:3]
+
+
 def coord(kind, v):
     """case value (integer eighths) -> the number handed to ECAgent"""
     if kind == "space":
@@ -82,7 +87,7 @@ def run_case(case):
     kind = case["kind"]
     agents = []          # (agent, joined order)
     for i, a in enumerate(case["agents"][:300]):
-        pos = [clampin(kind, int(v), ext[ax]) for ax, v in enumerate(a["pos"])]
+        pos = [clampin(kind, int(v), ext[ax]) for ax, v in enumerate(_p3(a["pos"]))]
         ag = Agent(f"a{i}", model)
         try:
             env.add_agent(ag, *[coord(kind, v) for v in pos])
@@ -92,16 +97,24 @@ def run_case(case):
     resident = list(agents)
     labels = set()
     counter = [len(agents)]
+    expect_pos = {}
+
+    def remember(ag, pos):
+        expect_pos[id(ag)] = tuple(Fraction(int(v), 8) if kind == "space" else Fraction(int(v) // 8) for v in pos)
+
+    for ag, a_ in zip(agents, case["agents"]):
+        remember(ag, [clampin(kind, int(v), ext[ax]) for ax, v in enumerate(_p3(a_["pos"]))])
 
     def change(mv):
         if mv.get("add") is not None:                      # a newcomer joins (possibly right after somebody left)
             if len(resident) >= 300:
                 return
-            pos = [clampin(kind, int(v), ext[ax]) for ax, v in enumerate(mv["add"])]
+            pos = [clampin(kind, int(v), ext[ax]) for ax, v in enumerate(_p3(mv["add"]))]
             ag = Agent(f"a{counter[0]}", model)
             counter[0] += 1
             env.add_agent(ag, *[coord(kind, v) for v in pos])
             resident.append(ag)
+            remember(ag, pos)
             labels.add("late-joiner")
             return
         if not resident:
@@ -112,16 +125,30 @@ def run_case(case):
             resident.remove(ag)
             labels.add("removed-agent")
             if mv.get("rejoin") is not None:               # the same agent object re-joins elsewhere (now last in joining order)
-                pos = [clampin(kind, int(v), ext[ax]) for ax, v in enumerate(mv["rejoin"])]
+                pos = [clampin(kind, int(v), ext[ax]) for ax, v in enumerate(_p3(mv["rejoin"]))]
                 env.add_agent(ag, *[coord(kind, v) for v in pos])
                 resident.append(ag)
+                remember(ag, pos)
                 labels.add("rejoined-agent")
         else:
-            pos = [clampin(kind, int(v), ext[ax]) for ax, v in enumerate(mv["to"])]
+            pos = [clampin(kind, int(v), ext[ax]) for ax, v in enumerate(_p3(mv["to"]))]
+            positive = [ax for ax in range(3) if ext[ax] > 0]
+            if mv.get("bad_axis") is not None and positive:
+                # an absolute move that is in range on the earlier axes and out of range on one axis: rejected, nothing moves
+                ax = positive[int(mv["bad_axis"]) % len(positive)]
+                bad = [coord(kind, v) for v in pos]
+                bad[ax] = -1 if int(mv["bad_axis"]) % 2 else (float(ext[ax]) + 1 if kind == "space" else int(ext[ax]))
+                try:
+                    env.move_to(ag, *bad)
+                except IndexError:
+                    labels.add("rejected-move")
+                    return
+                raise Violation("out-of-range-move-accepted", f"move_to {bad} was accepted")
             try:
                 env.move_to(ag, *[coord(kind, v) for v in pos])
             except Exception as e:
                 raise Violation("move-raised", f"move_to {pos} (eighths) raised {type(e).__name__}: {e}")
+            remember(ag, pos)
             labels.add("moved-agent")
 
     for mv in case.get("moves", [])[:6]:
@@ -150,6 +177,9 @@ def run_case(case):
             if pc is None:
                 raise Violation("resident-without-position", f"resident agent {ag.id} has no PositionComponent")
             recorded.append((ag, [Fraction(v) for v in pc.xyz()]))
+            if id(ag) in expect_pos and tuple(recorded[-1][1]) != expect_pos[id(ag)]:
+                raise Violation("position-drifted", f"agent {ag.id} stands at {[str(c) for c in recorded[-1][1]]}, the last accepted placement / "
+                                                    f"move put it at {[str(c) for c in expect_pos[id(ag)]]}")
         plain, seam = [], []
         onface = False
         for ag, p in recorded:
@@ -248,7 +278,7 @@ def strategy(tier):
             st.fixed_dictionaries({"a": st.integers(0, 5), "remove": st.just(True)})), max_size=3))
         for mv in moves:
             if "to" in mv:
-                mv["to"] = [v if ext[ax] > 0 else 0 for ax, v in enumerate(mv["to"])]
+                mv["to"] = [v if ext[ax] > 0 else 0 for ax, v in enumerate(_p3(mv["to"]))]
         queries = []
         for _ in range(draw(st.integers(1, 6))):
             lee = draw(st.sampled_from([0, 0, step, step, 2 * step, 2 * step, 3 * step, 12, 4 * step, 6 * step, 0, -step]))
@@ -269,7 +299,7 @@ def strategy(tier):
                 pos3 = [draw(c) if ext[ax] > 0 else 0 for ax in range(3)]
                 a = draw(st.integers(0, 7))
                 if how == "move":
-                    script.append({"c": {"a": a, "to": pos3}})
+                    script.append({"c": {"a": a, "to": pos3, "bad_axis": draw(st.sampled_from([None, None, 0, 1, 2, 3, 4, 5]))}})
                 elif how == "remove":
                     script.append({"c": {"a": a, "remove": True}})
                 elif how == "rejoin":
